@@ -123,6 +123,12 @@ def _instrumented_run(scn, dev, expect=None):
 
 
 def _run_one(scn, dev, acc, mons, expect=None):
+    r = scn.get('runner')
+    if r:
+        from . import runners
+        ex, finds = runners.RUNNERS[r](scn, dev, expect, mons)
+        acc.add_exec(ex, finds)
+        return ex
     ex = harness.run_execution(scn, dev, expect=expect)
     acc.add_exec(ex, monitors.run_monitors(ex, mons))
     return ex
